@@ -228,7 +228,7 @@ def run_arena(ctx, arena, tag, vin=None, trace=None, trace_n=0, scripts=None, wa
     for attempt in (1, 2):
         rc, out = ctx.go_test(PKG, FILES, "^%s$" % a["test"], env=env, timeout=1500, go_timeout="20m")
         rows = vlib.read_ndjson(vout)
-        if rc == 0 and not any(r.get("kind") == "fatal" for r in rows):
+        if rc == 0 or any(r.get("kind") == "fatal" for r in rows):
             return rows
         # the arenas pick loopback ports: another process may take one first
         if attempt == 1 and ("address already in use" in out or "occupying" in out):
@@ -481,6 +481,21 @@ def run(ctx):
         vlib.write_ndjson(vin, [{"init": init_id, "initkey": init_key}] + [go_vec(w) for w in vecs])
         trace = ctx.path("g08_trace_%s.ndjson" % arena)
         rows = run_arena(ctx, arena, "main", vin=vin, trace=trace, trace_n=trace_n[arena])
+        fatal = [r for r in rows if r.get("kind") == "fatal"]
+        if fatal:
+            # The freshly booted system does not project to the initial state of the
+            # specification: booted once more, alone, before it counts.
+            rows2 = run_arena(ctx, arena, "init2", vin=vin)
+            fatal2 = [r for r in rows2 if r.get("kind") == "fatal"]
+            if not fatal2 or canon(fatal2[0].get("obs")) != canon(fatal[0].get("obs")):
+                raise vlib.Inconclusive("arena %s: the initial projection differed from the specification's initial state once, not twice" % arena)
+            rec = {"arena": arena, "direction": "A", "kind": "init", "observed": {"obs": fatal[0].get("obs")}, "want": fatal[0].get("want"),
+                   "script": [], "admissible": [{"code": 0, "dkey": fatal[0].get("want")}]}
+            what = "%s: a freshly booted system projects to %s; the specification's initial state is %s" % (
+                arena, canon(fatal[0].get("obs"))[:400], str(fatal[0].get("want"))[:400])
+            empty = {"states": prepared[arena][3], "vectors": len(vecs), "vectors_selected": sum(1 for w in vecs if w["want"]), "vectors_missed": len(vecs),
+                     "walk": {}, "behaviours": 1, "steps": 0, "trace_lines": 0, "trace_behaviours": 0, "replayed": [], "samples": []}
+            return empty, [(None, rec, what, 0)]
         return post(ctx, arena, prepared[arena], rows, trace, trace_n[arena], guard[arena])
 
     with concurrent.futures.ThreadPoolExecutor(2) as ex:
